@@ -1,4 +1,4 @@
-use std::{borrow::Cow, fs::File, io::Read, ops::Deref};
+use std::{borrow::Cow, ops::Deref};
 
 use crate::context::{MODIFIER_ALT_GR, MODIFIER_SHIFT};
 
@@ -50,16 +50,6 @@ pub(crate) fn get_modifiers(modifier: u8) -> Modifiers {
     let alt_gr = (modifier & MODIFIER_ALT_GR) == MODIFIER_ALT_GR;
 
     (shift, alt_gr)
-}
-
-/// Read the entire contents of a file into a bytes vector.
-///
-/// Optimized to allocate the required amount of capacity beforehand.
-pub(crate) fn read(file: &mut File) -> Vec<u8> {
-    let len = file.metadata().map(|m| m.len() + 1).unwrap();
-    let mut buf = Vec::with_capacity(len as usize);
-    file.read_to_end(&mut buf).unwrap();
-    buf
 }
 
 /// A meta characters splitted string.
